@@ -316,7 +316,7 @@ var _ FactStoreWithRemove = TeeingStore{NewSimpleInMemoryStore(), NewSimpleInMem
 // Add implementation that adds to the output store.
 func (s TeeingStore) Add(atom ast.Atom) bool {
 	if s.base.Contains(atom) {
-		return true
+		return false // already present, nothing was added
 	}
 	return s.Out.Add(atom)
 }
@@ -349,15 +349,16 @@ func (s TeeingStore) Merge(other ReadOnlyFactStore) {
 
 // ListPredicates returns a list of predicates.
 func (s TeeingStore) ListPredicates() []ast.PredicateSym {
-	m := make(map[string]ast.PredicateSym)
+	// Keyed by symbol and arity: p/1 and p/2 are different predicates.
+	m := make(map[ast.PredicateSym]bool)
 	for _, pred := range s.base.ListPredicates() {
-		m[pred.Symbol] = pred
+		m[pred] = true
 	}
 	for _, pred := range s.Out.ListPredicates() {
-		m[pred.Symbol] = pred
+		m[pred] = true
 	}
 	res := make([]ast.PredicateSym, 0, len(m))
-	for _, pred := range m {
+	for pred := range m {
 		res = append(res, pred)
 	}
 	return res
